@@ -33,6 +33,14 @@ func TestC10(t *testing.T) {
 		cfg.MaxReaders = 4
 		cfg.ReaderBoost = 2
 		cfg.CommitWeight = 40
+		if rapid.IntRange(0, 5).Draw(rt, "maxsize") == 0 {
+			// a transaction that fails on the size limit must give back everything it took from the free list
+			o := gen.Opts(rt, cfg)
+			o.MaxSize = rapid.SampledFrom([]int{48 << 10, 96 << 10, 200 << 10}).Draw(rt, "maxsizeval")
+			o.InitialMmapSize = 0
+			cfg.FixedOpts = &o
+			e.AllowCommitErr = true
+		}
 		fail := func(v *drv.Violation) {
 			failCase(rt, replayDoc{Property: "C10", Kind: "history", Ops: e.Log}, v)
 		}
@@ -77,6 +85,15 @@ func c10Install(e *drv.Env) *c10State {
 			return drv.Violf("after open: %d pages pending although no transaction ran", len(pending))
 		}
 		return st.exactFree(e, a.HWM, free, "after open")
+	}
+	e.AfterFailure = func(e *drv.Env, err error) *drv.Violation {
+		if !isMaxSize(err) {
+			return drv.Violf("commit failed with %v (only the size limit may fail here)", err)
+		}
+		e.Label("size-limit-failure")
+		// nothing was committed; whatever the failed transaction took from the free list must be reusable
+		// again: checked at the next writer begin / probe (exact free set when no reader is open)
+		return nil
 	}
 	e.AfterCommit = func(e *drv.Env, txid int) *drv.Violation {
 		prev := st.pages[txid-1]
@@ -199,6 +216,7 @@ func (st *c10State) after(e *drv.Env) func(op drv.Op) *drv.Violation {
 func replayHistoryC10(t *testing.T, d replayDoc) *drv.Violation {
 	e := drv.NewEnv("c10r")
 	defer e.Cleanup()
+	e.AllowCommitErr = true
 	st := c10Install(e)
 	aft := st.after(e)
 	for _, op := range d.Ops {
